@@ -898,8 +898,16 @@ def check_size(case):
     return len(json.dumps(case, default=str))
 
 
+def evidence_dir():
+    """evidence/ describes runs against /repo itself; a run pointed at another checkout
+    (VERIF_REPO, sensitivity testing) writes its report beside the build cache instead"""
+    if os.path.realpath(REPO) != os.path.realpath('/repo'):
+        return os.path.join(VERIF, '.cache', 'evidence-other-tree')
+    return os.path.join(VERIF, 'evidence')
+
+
 def write_evidence(check, tier, verif_seed, stats, wall, build_s, reported, known, harness_msgs):
-    os.makedirs(os.path.join(VERIF, 'evidence'), exist_ok=True)
+    os.makedirs(evidence_dir(), exist_ok=True)
     runs = stats.runs
     per_hour = int(runs / stats.wall * 3600) if stats.wall > 0 else 0
     cov = dict(
@@ -929,7 +937,7 @@ def write_evidence(check, tier, verif_seed, stats, wall, build_s, reported, know
     ev = dict(property_id=check.pid, tier=tier, seed=verif_seed, level=check.level,
               coverage=cov, assumptions=list(check.assumptions), wall_s=round(wall, 2),
               violations=reported)
-    path = os.path.join(VERIF, 'evidence', '%s.json' % check.pid)
+    path = os.path.join(evidence_dir(), '%s.json' % check.pid)
     tmp = path + '.tmp'
     with open(tmp, 'w') as f:
         json.dump(ev, f, indent=1, sort_keys=True, default=str)
